@@ -3,13 +3,15 @@ usage: checkmut.py [names...]   (names: seeded dir names, e.g. C03_1, or catalog
 import sys, os, json, shutil, subprocess, tempfile, glob, time
 from concurrent.futures import ThreadPoolExecutor
 
+HERE = os.path.dirname(os.path.dirname(os.path.abspath(__file__)))     # the /verif tree this script belongs to (a vp-run snapshot works too)
+
 def one(n):
-    if os.path.isdir(f'/verif/seeded/{n}'):
-        meta = json.load(open(f'/verif/seeded/{n}/meta.json')); props = [meta['property']]
-        patch = f'/verif/seeded/{n}/patch_rebased.diff' if os.path.exists(f'/verif/seeded/{n}/patch_rebased.diff') else f'/verif/seeded/{n}/patch.diff'
+    if os.path.isdir(f'{HERE}/seeded/{n}'):
+        meta = json.load(open(f'{HERE}/seeded/{n}/meta.json')); props = [meta['property']]
+        patch = f'{HERE}/seeded/{n}/patch_rebased.diff' if os.path.exists(f'{HERE}/seeded/{n}/patch_rebased.diff') else f'{HERE}/seeded/{n}/patch.diff'
     else:
-        meta = json.load(open(f'/verif/mutants/{n}.json')); props = meta['breaks'][:1]
-        patch = f'/verif/mutants/{n}.patch'
+        meta = json.load(open(f'{HERE}/mutants/{n}.json')); props = meta['breaks'][:1]
+        patch = f'{HERE}/mutants/{n}.patch'
     d = tempfile.mkdtemp(prefix='pvcchk_')
     try:
         shutil.copytree('/repo/pane', os.path.join(d, 'pane'))
@@ -19,7 +21,9 @@ def one(n):
         out = []
         for prop in props:
             t = time.time()
-            r = subprocess.run(['python3-vt', '/verif/check.py', prop, '--repo', d], capture_output=True, text=True, cwd='/verif')
+            # evidence of a run against a changed copy must not replace the evidence of the real tree
+            r = subprocess.run(['python3-vt', f'{HERE}/check.py', prop, '--repo', d], capture_output=True, text=True, cwd=HERE,
+                               env={**os.environ, 'PVC_EVIDENCE_DIR': os.path.join(d, '_evidence'), 'PVC_NO_MUTANTS': '1'})
             vio = [l for l in r.stdout.splitlines() if l.startswith('VIOLATION')]
             fo = [l.strip() for l in r.stdout.splitlines() if 'failed obligation' in l or l.startswith('UNDECIDED')]
             out.append((prop, r.returncode, len(vio), any('no-failing-input-found' not in v for v in vio), round(time.time() - t), fo[:2]))
@@ -27,11 +31,11 @@ def one(n):
     finally:
         shutil.rmtree(d)
 
-names = sys.argv[1:] or sorted(os.listdir('/verif/seeded')) + sorted(os.path.basename(p)[:-6] for p in glob.glob('/verif/mutants/*.patch'))
+names = sys.argv[1:] or sorted(os.listdir(f'{HERE}/seeded')) + sorted(os.path.basename(p)[:-6] for p in glob.glob(f'{HERE}/mutants/*.patch'))
 with ThreadPoolExecutor(4) as ex:
     for n, props, st, out in ex.map(one, names):
         if st != 'RAN':
             print(f'{n}: {st}'); continue
         for prop, rc, nv, has_input, secs, fo in out:
             verdict = {0: 'MISSED', 1: 'DETECTED', 2: 'UNDECIDED', 3: 'ERROR'}.get(rc, rc)
-            print(f'{n}: {prop} {verdict} violations={nv} with_input={has_input} ({secs}s) {fo[0][:150] if fo else ""}')
+            print(f'{n}: {prop} {verdict} violations={nv} with_input={has_input} ({secs}s) {fo[0][:150] if fo else ""}', flush=True)
